@@ -1140,7 +1140,11 @@ impl Exec {
                 self.fail(&props, format!("after `{opline}` ({}): {b}", out.fmt()));
             }
             for e in errs {
-                self.fail(&props, format!("after `{opline}` ({}): shadow heap: {e}", out.fmt()));
+                let mut p = props.clone();
+                if e.contains("in-place write") {
+                    p.push("C02");
+                }
+                self.fail(&p, format!("after `{opline}` ({}): shadow heap: {e}", out.fmt()));
             }
         }
 
